@@ -88,6 +88,28 @@ def build_obligation(inst):
                     eq = c if eq is None else C.c_and(eq, c)
                 exp.append(C.c_where(eq, Lc[b], -float("inf")) if eq is not None else Lc[b])
             return [(got, exp)]
+        if kind == "delta_eval_ld":
+            # the log-density has a batch input that the point does not have: the Delta must declare it
+            _, shape = inst
+            P = mk.array("p", shape, "real")
+            LD = mk.array("ld", (2,), "real")
+            X = mk.array("x", shape, "real")
+            d = Delta("v", Tensor(P), Tensor(LD, OrderedDict(b=Bint[2])))
+            import z3
+            side = set(d.inputs) == {"v", "b"}
+            pairs = [(z3.BoolVal(side) if mk.symbolic else side, None)]
+            r = d(v=Tensor(X))
+            got, exp = [], []
+            Pc, Lc, Xc = _cells(P), _cells(LD), _cells(X)
+            for b in range(2):
+                got.append(result_cells(r, dict(b=b))[()])
+                eq = None
+                for idx in np.ndindex(*shape):
+                    c = Xc[idx] == Pc[idx]
+                    eq = c if eq is None else C.c_and(eq, c)
+                exp.append(C.c_where(eq, Lc[b], -float("inf")) if eq is not None else Lc[b])
+            pairs.append((got, exp))
+            return pairs
         if kind in ("delta_reduce", "delta_integrate"):
             # unit-mass Delta: (Delta + f).reduce(logaddexp, v) == f(v=p) == Integrate(Delta, f, v)
             _, batch, point_kind = inst
@@ -275,6 +297,7 @@ def instances(tier, seed):
         for pk in ("tensor", "number", "lazy"):
             out.append(("delta_reduce", batch, pk))
             out.append(("delta_integrate", batch, pk))
+    out += [("delta_eval_ld", ()), ("delta_eval_ld", (2,))]
     for bx, by in ((OrderedDict(), OrderedDict()), (OrderedDict(i=2), OrderedDict(j=3)), (OrderedDict(i=2), OrderedDict(i=2)), (OrderedDict(i=2), OrderedDict())):
         for subset in (("x",), ("y",), ("x", "y")):
             out.append(("delta_integrate_joint", bx, by, subset))
